@@ -535,7 +535,7 @@ MANIFEST_ENTRY = {
     "index map), the closure test and walk order, the three idioms of the successor walk, every strand text sliced from the structure's own dot-bracket; (3) the Strand/Stem constructors evaluated as "
     "extracted fragments on representative spans (affine in first/length); (4) a reaching-definition rule for the CLI (the dot-bracket shown and the elements listed belong to the same object); (5) the "
     "cross-cutting memo-key rule. All are necessary conditions whose violation shifts, truncates, drops or mis-links elements for some structure; they hold for all structures because they are facts about the "
-    "index arithmetic and the paths of the code itself; (6) the whole decomposition interpreted from the ast on every set of pairs over 2..7 positions and 18 larger named shapes and judged by the clauses of the "
+    "index arithmetic and the paths of the code itself; (6) the whole decomposition interpreted from the ast on every set of pairs over 2..7 positions (quick: 350 sets; thorough: 2..9 positions, 3734 sets) and 18 larger named shapes and judged by the clauses of the "
     "statement (stems, hairpins, loops incl. maximality, exactly-one coverage, strand texts), with statement and condition coverage required. Pinned-form comparison is used only as a per-aspect fallback.",
     "note": "Trusted: seed table of 1-based fields, CPython ast, the ast interpreter. Not decided: the statement for structures beyond the evaluated ones (there only the mechanism rules speak); inputs violating the valid-BPSEQ assumption.",
     "technique": "static analysis: abstract interpretation with index kinds (base, offset) + symbolic affine positions with def-use roles + path enumeration + fragment evaluation on input-class representatives + reaching definitions, all over the ast",
